@@ -688,6 +688,156 @@ theorem audit_contest_is_max (sqrtF : Rat → Rat) (ctype : AuditType) (hasMvr :
   rw [this, foldlM_filter, foldlM_max_eq]
   rfl
 
+/-! ### 4b. several contests in one call of `Audit.find_sample_size` -/
+
+/-- the estimate `Audit.find_sample_size` requests for one unproved assertion, including the ONEAudit
+branch (assumed errors written into the data built from all CVRs) -/
+def auditItemEstimateInj (sqrtF : Rat → Rat) (ctype : AuditType) (hasMvr : Bool) (rate1 rate2 : Option Rat)
+    (q : Rat) (it : Item) : Except SS.Err Nat :=
+  if hasMvr then assertionFindSampleSize sqrtF it.a (some it.mvrData) true none none it.tails q
+  else if ctype == .oneaudit then do
+    let data ← oneauditInject it.cvrData rate1 rate2 it.a.upperBound it.a.margin
+    assertionFindSampleSize sqrtF it.a (some data) false rate1 rate2 it.tails q
+  else assertionFindSampleSize sqrtF it.a none false rate1 rate2 it.tails q
+
+/-- per contest: the new size is the maximum over the contest's own unproved assertions -/
+theorem auditInj_is_max (sqrtF : Rat → Rat) (ctype : AuditType) (hasMvr : Bool) (items : List Item)
+    (rate1 rate2 : Option Rat) (q : Rat) :
+    auditContestNewSizeInj sqrtF ctype hasMvr items rate1 rate2 q =
+      ((items.filter (fun it => !it.proved)).mapM
+        (auditItemEstimateInj sqrtF ctype hasMvr rate1 rate2 q)).map maxOf := by
+  have : auditContestNewSizeInj sqrtF ctype hasMvr items rate1 rate2 q =
+      items.foldlM (fun acc it => if it.proved then pure acc else do
+        let s ← auditItemEstimateInj sqrtF ctype hasMvr rate1 rate2 q it; pure (max acc s)) 0 := by
+    unfold auditContestNewSizeInj auditItemEstimateInj
+    congr 1
+    funext acc it
+    by_cases hp : it.proved = true
+    · simp [hp]
+    · by_cases hm : hasMvr = true
+      · simp [hp, hm]
+      · by_cases ho : (ctype == AuditType.oneaudit) = true
+        · simp only [hp, hm, ho, Bool.false_eq_true, ↓reduceIte, bind_assoc]
+        · simp [hp, hm, ho]
+  rw [this, foldlM_filter, foldlM_max_eq]
+  rfl
+
+/-- outside the ONEAudit-without-MVRs branch this is the function `audit_contest_is_max` is about -/
+theorem auditInj_eq (sqrtF : Rat → Rat) (ctype : AuditType) (hasMvr : Bool) (items : List Item)
+    (rate1 rate2 : Option Rat) (q : Rat) (h : hasMvr = true ∨ ctype ≠ .oneaudit) :
+    auditContestNewSizeInj sqrtF ctype hasMvr items rate1 rate2 q =
+      auditContestNewSize sqrtF ctype hasMvr items rate1 rate2 q := by
+  unfold auditContestNewSizeInj auditContestNewSize
+  congr 1
+  funext acc it
+  rcases h with h | h
+  · simp [h]
+  · have : (ctype == AuditType.oneaudit) = false := by simpa using h
+    simp [this]
+
+theorem mapM_ok_iff_forall₂ {α β ε} (f : α → Except ε β) (l : List α) (r : List β) :
+    l.mapM f = .ok r ↔ List.Forall₂ (fun a b => f a = .ok b) l r := by
+  induction l generalizing r with
+  | nil =>
+    constructor
+    · intro h; cases h; exact List.Forall₂.nil
+    · intro h; cases h; rfl
+  | cons a l ih =>
+    rw [List.mapM_cons]
+    cases hf : f a with
+    | error e =>
+      constructor
+      · intro h; cases h
+      · intro h; cases h with | cons h1 _ => rw [hf] at h1; cases h1
+    | ok b =>
+      cases hl : l.mapM f with
+      | error e =>
+        constructor
+        · intro h; cases h
+        · intro h
+          cases h with
+          | cons h1 h2 =>
+            have := (ih _).mpr h2
+            rw [hl] at this; cases this
+      | ok bs =>
+        constructor
+        · intro h
+          cases h
+          exact List.Forall₂.cons hf ((ih bs).mp hl)
+        · intro h
+          cases h with
+          | cons h1 h2 =>
+            rw [hf] at h1; cases h1
+            have := (ih _).mpr h2
+            rw [hl] at this; cases this
+            rfl
+
+/-- **audit_per_contest**: `Audit.find_sample_size` on several contests assigns to each contest the value
+its own assertions determine (`auditContestNewSizeInj` of that contest alone) — position by position, so
+the result for a contest does not depend on the other contests in the call -/
+theorem audit_per_contest (sqrtF : Rat → Rat) (hasMvr : Bool) (contests : List AContest)
+    (rate1 rate2 : Option Rat) (q : Rat) (sizes : List Nat) :
+    auditFindSampleSizes sqrtF hasMvr contests rate1 rate2 q = .ok sizes ↔
+      List.Forall₂ (fun c s => auditContestNewSizeInj sqrtF c.ctype hasMvr c.items rate1 rate2 q = .ok s)
+        contests sizes := by
+  unfold auditFindSampleSizes
+  exact mapM_ok_iff_forall₂ _ contests sizes
+
+theorem forall₂_zip {α β} {R : α → β → Prop} {l : List α} {r : List β} (h : List.Forall₂ R l r) :
+    ∀ a b, (a, b) ∈ l.zip r → R a b := by
+  induction h with
+  | nil => intro a b hab; simp at hab
+  | cons h1 _ ih =>
+    intro a b hab
+    rw [List.zip_cons_cons, List.mem_cons] at hab
+    rcases hab with hab | hab
+    · cases hab; exact h1
+    · exact ih a b hab
+
+theorem forall₂_exists_left {α β} {R : α → β → Prop} {l : List α} {r : List β} (h : List.Forall₂ R l r) :
+    ∀ a ∈ l, ∃ b, R a b := by
+  induction h with
+  | nil => intro a ha; simp at ha
+  | cons h1 _ ih =>
+    intro a ha
+    rcases List.mem_cons.mp ha with rfl | ha
+    · exact ⟨_, h1⟩
+    · exact ih a ha
+
+theorem mapM_ok_of_forall {α β ε} (f : α → Except ε β) (l : List α) (h : ∀ a ∈ l, ∃ b, f a = .ok b) :
+    ∃ r, l.mapM f = .ok r := by
+  induction l with
+  | nil => exact ⟨[], rfl⟩
+  | cons a l ih =>
+    obtain ⟨b, hb⟩ := h a (List.mem_cons_self ..)
+    obtain ⟨r, hr⟩ := ih (fun x hx => h x (List.mem_cons_of_mem _ hx))
+    exact ⟨b :: r, by rw [List.mapM_cons, hb, hr]; rfl⟩
+
+/-- **the order of the contests is irrelevant**: if the call succeeds for the contests in one order it
+succeeds in every other order, and in both every contest is paired with the value it has on its own -/
+theorem audit_order_irrelevant (sqrtF : Rat → Rat) (hasMvr : Bool) (cs cs' : List AContest)
+    (hperm : cs.Perm cs') (rate1 rate2 : Option Rat) (q : Rat) (sizes : List Nat)
+    (h : auditFindSampleSizes sqrtF hasMvr cs rate1 rate2 q = .ok sizes) :
+    ∃ sizes', auditFindSampleSizes sqrtF hasMvr cs' rate1 rate2 q = .ok sizes' ∧
+      (∀ c s, (c, s) ∈ cs.zip sizes → auditContestNewSizeInj sqrtF c.ctype hasMvr c.items rate1 rate2 q = .ok s) ∧
+      (∀ c s, (c, s) ∈ cs'.zip sizes' → auditContestNewSizeInj sqrtF c.ctype hasMvr c.items rate1 rate2 q = .ok s) := by
+  have h2 := (audit_per_contest sqrtF hasMvr cs rate1 rate2 q sizes).mp h
+  have hall : ∀ c ∈ cs, ∃ s, auditContestNewSizeInj sqrtF c.ctype hasMvr c.items rate1 rate2 q = .ok s := by
+    intro c hc
+    exact forall₂_exists_left h2 c hc
+  obtain ⟨sizes', hs'⟩ := mapM_ok_of_forall
+    (fun c => auditContestNewSizeInj sqrtF c.ctype hasMvr c.items rate1 rate2 q) cs'
+    (fun c hc => hall c (hperm.mem_iff.mpr hc))
+  refine ⟨sizes', hs', forall₂_zip h2, ?_⟩
+  exact forall₂_zip ((audit_per_contest sqrtF hasMvr cs' rate1 rate2 q sizes').mp hs')
+
+/-- the value returned without style information is the largest contest estimate -/
+theorem auditTotalNoStyle_spec (sizes : List Nat) (h : sizes ≠ []) :
+    auditTotalNoStyle sizes = .ok (maxOf sizes) := by
+  cases sizes with
+  | nil => exact absurd rfl h
+  | cons s rest => simp [auditTotalNoStyle, maxOf]
+
 /-! ### 5. interleaving returns exactly the requested number of each value -/
 
 def valOf (small med big : Rat) : Cls → Rat
@@ -941,5 +1091,23 @@ example : contestFindSampleSize sqrtRat .polling false
 example : auditContestNewSize sqrtRat .polling false
     [{ a := exA .polling 1 (3/4) }, { a := exA .cardComparison (6/5) (11/10), proved := true }]
     (some (1/3)) (some (1/5)) (1/2) = .ok 9 := by decide +kernel
+
+/-- two contests in one call: the tight comparison contest first (12), the polling contest second (9):
+the second keeps its own value 9 (a running maximum would report 12), and swapping the order swaps the
+results -/
+example : auditFindSampleSizes sqrtRat false
+    [{ ctype := .cardComparison, items := [{ a := exA .cardComparison (6/5) (11/10) }] },
+     { ctype := .polling, items := [{ a := exA .polling 1 (3/4) }] }] (some (1/3)) (some (1/5)) (1/2)
+    = .ok [12, 9] := by decide +kernel
+
+example : auditFindSampleSizes sqrtRat false
+    [{ ctype := .polling, items := [{ a := exA .polling 1 (3/4) }] },
+     { ctype := .cardComparison, items := [{ a := exA .cardComparison (6/5) (11/10) }] }] (some (1/3)) (some (1/5)) (1/2)
+    = .ok [9, 12] := by decide +kernel
+
+/-- ONEAudit error injection: every 2nd value a one-vote overstatement (`3/10`), then every 4th a two-vote
+overstatement (`overs = 1` gives 0 for upper bound 1) -/
+example : oneauditInject [3/5, 3/5, 3/5, 3/5, 3/5, 3/5] (some (1/2)) (some (1/4)) 1 (some (1/3)) =
+    .ok [0, 3/5, 3/10, 3/5, 0, 3/5] := by decide +kernel
 
 end Shangrla.C16
